@@ -2,8 +2,11 @@ package main
 
 import (
 	"fmt"
+	"os"
+	"path/filepath"
 	"sort"
 	"strings"
+	"sync"
 	"sync/atomic"
 	"time"
 
@@ -17,6 +20,8 @@ func init() { register("C04", "model_checking", checkC04) }
 
 var c04LeafText = []string{"1", "2", `"a"`, "int", "string", ">1", "{a: 1}", "{a: 2}", "{a: int}", "{b: 1}"}
 var c04ProbeText = []string{"1", "2", "3", `"a"`, "{a: 1}", "{a: 2}", "{b: 1}", "{a: 1, b: 1}"}
+
+var dbgMu sync.Mutex
 
 type c04Outcome struct {
 	o, c  string
@@ -151,7 +156,11 @@ func checkC04(r *kit.Run) {
 	}
 	var total, nontrivial, checked, canaries, caught, unclear int64
 	for _, cfg := range cfgs {
-		res, err := kit.RunTLC(kit.TLCOpts{Module: "CueDisj", Cfg: cfg, Dump: true, Seed: r.Seed + 5, Timeout: 40 * time.Minute, Heap: "24g"})
+		cfgText, rerr := os.ReadFile(filepath.Join(kit.VerifDir(), "spec", cfg))
+		if rerr != nil {
+			r.Fatal("%v", rerr)
+		}
+		res, err := kit.RunTLC(kit.TLCOpts{Module: "CueDisj", CfgText: strings.Replace(string(cfgText), "Seed = 1", fmt.Sprintf("Seed = %d", r.Seed), 1), Dump: true, Timeout: 40 * time.Minute, Heap: "24g"})
 		if err != nil || res.TimedOut || !res.OK() {
 			out := res.Tail(40)
 			res.Cleanup()
@@ -224,6 +233,14 @@ func c04One(r *kit.Run, ctx *cue.Context, st tlaval.State, ds []tlaval.Value, gr
 				} else {
 					rep["flat_form_agrees_with_the_rules"] = true
 					key = "class nested-disjunction-default"
+					if f := os.Getenv("VERIF_DEBUG_C04"); f != "" {
+						dbgMu.Lock()
+						if fh, err := os.OpenFile(f, os.O_APPEND|os.O_CREATE|os.O_WRONLY, 0o644); err == nil {
+							fmt.Fprintf(fh, "%s ## %d :: %s\n", expr, idx, msg)
+							fh.Close()
+						}
+						dbgMu.Unlock()
+					}
 					r.Add("nested_form_disagreements", 1)
 					msg = expr + ": " + msg
 				}
